@@ -48,7 +48,7 @@ type meshObs struct {
 	Dims    []int    `json:"dims,omitempty"` // world
 	Base    int      `json:"base,omitempty"`
 	Code    int64    `json:"code"`
-	Aligned bool     `json:"aligned"`        // every vertex on the doubled integer lattice
+	Aligned bool     `json:"aligned"` // every vertex on the doubled integer lattice
 	Nt      int      `json:"nt"`
 	Tris    [][3]int `json:"tris"` // vertex ids (1-based), emission order
 	Pos     [][3]int `json:"pos"`  // doubled lattice coordinates per vertex id (if aligned)
